@@ -106,8 +106,9 @@ def subimage(arr, center, shape):
     arr : xarray.DataArray
         The array to subimage
     center : tuple of ints or floats
-        The desired center of the region, should have the same number of
-        elements as the arr has dimensions. Floats will be rounded
+        The desired center of the region in x & y. It may also have the
+        same number of elements as the arr has dimensions, of which the
+        x & y ones are used. Floats will be rounded
     shape : int or (int, int)
         Desired shape of the region in x & y dimensions. If a single int is
         given it is applied along both axes. Shape values must be even.
@@ -120,6 +121,12 @@ def subimage(arr, center, shape):
         coordinates relative to the input.
     """
     center = (np.round(center)).astype(int)
+    if arr.ndim > 2 and len(center) == arr.ndim:
+        # one entry for each dimension of arr: pick out the x & y ones
+        center = [center[arr.dims.index(dim)] for dim in 'xy']
+    if len(center) != 2:
+        raise ValueError("center must have an entry for x & y or for each "
+                         "dimension of arr")
 
     if np.isscalar(shape):
         shape = np.repeat(shape, 2)
